@@ -757,3 +757,7 @@ M("C01", "noiseless runs use the density-matrix solver", "kill", [(SVI, "       
 M("C16", "twin: solver chosen with a length test", "twin", [(SVI, "        if self.pulser_lindblads:\n            stepper = EvolveDensityMatrix", "        if len(data.lindblad_ops) > 0:\n            stepper = EvolveDensityMatrix")])
 M("C14", "emu-sv membership test with its arguments exchanged", "kill", [(SVI, "self._config.is_time_in_evaluation_times(t, times, tol=tolerance)", "self._config.is_time_in_evaluation_times(times, t, tol=tolerance)")], "ONCE-filter")
 M("C14", "emu-mps own-times test asks about the default times", "kill", [(IMPL, "self.config.is_time_in_evaluation_times(t, times, tol=tolerance)", "self.config.is_time_in_evaluation_times(t, self.config.default_evaluation_times, tol=tolerance)")], "ONCE-filter")
+M("C03", "drive columns laid out for the sorted ids", "kill", [(PA, "    qubit_ids_filtered = [qid for qid in qubit_ids if qid in locals_a_d_p]", "    qubit_ids_filtered = sorted(locals_a_d_p.keys() & set(qubit_ids))")], "STEP-adapter")
+M("C03", "drive columns laid out in the sampler's dictionary order", "kill", [(PA, "    qubit_ids_filtered = [qid for qid in qubit_ids if qid in locals_a_d_p]", "    qubit_ids_filtered = [qid for qid in locals_a_d_p if qid in qubit_ids]")], "STEP-adapter")
+M("C22", "drive column written at a position counted over addressed atoms only of another list", "kill", [(PA, "            data_mid[:, q_pos] = pchip(t_mid)\n", "            data_mid[:, qubit_ids.index(q_id) % data_mid.shape[1]] = pchip(t_mid)\n")], "STEP-adapter")
+M("C03", "twin: filtered ids built through an explicit list()", "twin", [(PA, "    qubit_ids_filtered = [qid for qid in qubit_ids if qid in locals_a_d_p]", "    present = locals_a_d_p\n    qubit_ids_filtered = [qid for qid in list(qubit_ids) if qid in present]")])
